@@ -324,7 +324,7 @@ EvalCalledLambda(t, env) ==     \* t = call whose func is a lam term
 (* i.e. the called lambda (lambda params: body)(args).  The table is rendered to real `def`s  *)
 (* and lambdas by the harness (harness/props_helpers.py HELPER_SOURCE must match).            *)
 LamD(ps, nd, body, defs) == T("lam", "", nd, ps, <<body>> \o defs)
-HelperNames == {"h_id", "h_inc", "h_sub", "h_lam", "h_nest", "h_nest2", "h_two", "h_cap", "h_kw", "h_d3", "h_deep", "h_rec", "h_comp", "h_comp2"}
+HelperNames == {"h_id", "h_inc", "h_sub", "h_lam", "h_nest", "h_nest2", "h_two", "h_cap", "h_kw", "h_d3", "h_deep", "h_rec", "h_comp", "h_comp2", "h_la", "h_lb"}
 HelperLam(f) ==
     CASE f = "h_id"   -> Lam(<<"a">>, Name("a"))
       [] f = "h_inc"  -> Lam(<<"a">>, BinOp("+", Name("a"), IntC(1)))
@@ -350,6 +350,10 @@ HelperLam(f) ==
       \* a comprehension target (a) that a caller-side argument name may collide with; uses the parameter inside
       [] f = "h_comp2" -> Lam(<<"c">>, Fn("Sum", <<Comp("list", "a", BinOp("+", Attr(Name("a"), "pt"), Attr(Name("c"), "pt")),
                                                        Attr(Name("c"), "trks"), <<>>)>>))
+      \* two lambda helpers written on ONE source line with the same parameter name: the library cannot tell them
+      \* apart and must leave them as calls by name (never inline the other one)
+      [] f = "h_la"   -> Lam(<<"j">>, BinOp("*", Name("j"), IntC(2)))
+      [] f = "h_lb"   -> Lam(<<"j">>, BinOp("*", Name("j"), IntC(5)))
       [] f = "h_d3"   -> LamD(<<"x", "y", "z">>, 2,
                               BinOp("+", BinOp("*", Name("x"), IntC(100)), BinOp("+", BinOp("*", Name("y"), IntC(10)), Name("z"))),
                               <<IntC(2), IntC(7)>>)
